@@ -222,7 +222,7 @@ package flood
 //@ at call (*RouteWithdraw).Encode assert base($0.Routes) == base(routes) && offset($0.Routes) == offset(routes) + start && $0.OriginAgent == f.localID
 
 //@ func (*Flooder).SendFullTable
-//@ prop C06 C14
+//@ prop C06 C14 C13
 //@ modifies *
 //@ after call IncrementSequence let seq = $ret
 //@ loop 13 invariant 0 <= start && start % 255 == 0
@@ -231,7 +231,26 @@ package flood
 //@ at[C14] call (*RouteAdvertise).Encode assert $0.OriginAgent == originAgent && $0.Sequence == seq && len($0.SeenBy) == 1 && $0.SeenBy[0] == f.localID
 //@ at[C14] call (*RouteAdvertise).Encode assert originAgent != f.localID ==> (len(cidrRoutes) > 0 && $0.Sequence == cidrRoutes[0].Sequence) || (len(agentPresenceRoutes) > 0 && $0.Sequence == agentPresenceRoutes[0].Sequence) || (len(forwardOriginRoutes) > 0 && $0.Sequence == forwardOriginRoutes[0].Sequence) || (len(domainOriginRoutes) > 0 && $0.Sequence == domainOriginRoutes[0].Sequence)
 //@ note C14: a replayed advertisement for another agent's routes must carry a sequence number that agent issued (the one stored with its routes); the last guard states that and is a recorded known finding: the replay is stamped with the replaying agent's own counter
-//@ note C13 for replays (sent metric == stored metric, path == self :: stored path of the same route) is not under contract here
+//@ loop 9 invariant -1 <= rangeindex && rangeindex < len(cidrRoutes) && len(routes) == rangeindex + 1 && forall i in 0..rangeindex+1: routes[i].Metric == cidrRoutes[i].Metric
+//@ loop 10 invariant -1 <= rangeindex && rangeindex < len(agentPresenceRoutes) && len(routes) == len(cidrRoutes) + rangeindex + 1
+//@ loop 10 invariant forall i in 0..len(cidrRoutes): routes[i].Metric == cidrRoutes[i].Metric
+//@ loop 10 invariant forall j in len(cidrRoutes)..len(routes): routes[j].Metric == agentPresenceRoutes[j - len(cidrRoutes)].Metric && routes[j].AddressFamily == 5
+//@ loop 11 invariant -1 <= rangeindex && rangeindex < len(forwardOriginRoutes) && len(routes) == len(cidrRoutes) + len(agentPresenceRoutes) + rangeindex + 1
+//@ loop 11 invariant forall i in 0..len(cidrRoutes): routes[i].Metric == cidrRoutes[i].Metric
+//@ loop 11 invariant forall j in len(cidrRoutes)..len(cidrRoutes) + len(agentPresenceRoutes): routes[j].Metric == agentPresenceRoutes[j - len(cidrRoutes)].Metric
+//@ loop 11 invariant forall j in len(cidrRoutes) + len(agentPresenceRoutes)..len(routes): routes[j].Metric == forwardOriginRoutes[j - len(cidrRoutes) - len(agentPresenceRoutes)].Metric && routes[j].AddressFamily == 4
+//@ loop 12 invariant -1 <= rangeindex && rangeindex < len(domainOriginRoutes) && len(routes) == len(cidrRoutes) + len(agentPresenceRoutes) + len(forwardOriginRoutes) + rangeindex + 1
+//@ loop 12 invariant forall i in 0..len(cidrRoutes): routes[i].Metric == cidrRoutes[i].Metric
+//@ loop 12 invariant forall j in len(cidrRoutes)..len(cidrRoutes) + len(agentPresenceRoutes): routes[j].Metric == agentPresenceRoutes[j - len(cidrRoutes)].Metric
+//@ loop 12 invariant forall j in len(cidrRoutes) + len(agentPresenceRoutes)..len(cidrRoutes) + len(agentPresenceRoutes) + len(forwardOriginRoutes): routes[j].Metric == forwardOriginRoutes[j - len(cidrRoutes) - len(agentPresenceRoutes)].Metric
+//@ loop 12 invariant forall j in len(cidrRoutes) + len(agentPresenceRoutes) + len(forwardOriginRoutes)..len(routes): routes[j].Metric == domainOriginRoutes[j - len(cidrRoutes) - len(agentPresenceRoutes) - len(forwardOriginRoutes)].Metric && routes[j].AddressFamily == 3
+//@ loop 13 invariant len(routes) == len(cidrRoutes) + len(agentPresenceRoutes) + len(forwardOriginRoutes) + len(domainOriginRoutes) && len(path) >= 1 && path[0] == f.localID
+//@ loop 13 invariant (forall i in 0..len(cidrRoutes): routes[i].Metric == cidrRoutes[i].Metric) && (forall j in len(cidrRoutes)..len(cidrRoutes) + len(agentPresenceRoutes): routes[j].Metric == agentPresenceRoutes[j - len(cidrRoutes)].Metric)
+//@ loop 13 invariant (forall j in len(cidrRoutes) + len(agentPresenceRoutes)..len(cidrRoutes) + len(agentPresenceRoutes) + len(forwardOriginRoutes): routes[j].Metric == forwardOriginRoutes[j - len(cidrRoutes) - len(agentPresenceRoutes)].Metric) && (forall j in len(cidrRoutes) + len(agentPresenceRoutes) + len(forwardOriginRoutes)..len(routes): routes[j].Metric == domainOriginRoutes[j - len(cidrRoutes) - len(agentPresenceRoutes) - len(forwardOriginRoutes)].Metric)
+//@ at[C13] call (*RouteAdvertise).Encode assert $0.Path == path && len(path) >= 1 && path[0] == f.localID && $0.EncPath == nil
+//@ at[C13] call (*RouteAdvertise).Encode assert (forall i in 0..len(cidrRoutes): routes[i].Metric == cidrRoutes[i].Metric) && (forall j in len(cidrRoutes)..len(cidrRoutes) + len(agentPresenceRoutes): routes[j].Metric == agentPresenceRoutes[j - len(cidrRoutes)].Metric)
+//@ at[C13] call (*RouteAdvertise).Encode assert (forall j in len(cidrRoutes) + len(agentPresenceRoutes)..len(cidrRoutes) + len(agentPresenceRoutes) + len(forwardOriginRoutes): routes[j].Metric == forwardOriginRoutes[j - len(cidrRoutes) - len(agentPresenceRoutes)].Metric) && (forall j in len(cidrRoutes) + len(agentPresenceRoutes) + len(forwardOriginRoutes)..len(routes): routes[j].Metric == domainOriginRoutes[j - len(cidrRoutes) - len(agentPresenceRoutes) - len(forwardOriginRoutes)].Metric)
+//@ note C13 for replays: every replayed route is sent with exactly its stored metric (the list sent is the concatenation of the origin's CIDR, agent-presence, forward and domain routes, window by window), under a path that starts with this agent; that the rest of the path is the stored path of THAT route (and not of the group's first route) is not stated - see DESIGN 7.3
 
 // ---- C11: withdrawals take the same seen-cache / seen-by gate; the seen cache keeps what it must ----
 
@@ -265,3 +284,15 @@ package flood
 //@ loop 0 invariant f.seenCache == old(f.seenCache)
 //@ ensures forall k AdvertisementKey: old(has(f.seenCache, k)) && now - old(f.seenCache[k].SeenAt) <= expiry ==> has(f.seenCache, k)
 //@ note an advertisement recorded less than the TTL ago must still be recognised as a duplicate after a cleanup
+
+// ---- frame contracts of the flooder's collaborators (C13, C06) ----
+
+//@ func PeerSender.SendToPeer
+//@ trusted handing a frame to the peer manager does not write the flooder's or the routing tables' data (it queues the encoded frame on a connection)
+
+//@ func PeerSender.GetPeerIDs
+//@ trusted returns a fresh list of the connected peers' ids; changes nothing
+
+//@ func (*Flooder).getLocalDisplayName
+//@ prop C13 C06
+//@ note no modifies clause: proved to change nothing
